@@ -1,11 +1,28 @@
 """C19 — An error while processing any tile is reported, never swallowed by parallelism."""
 PROPERTY = "C19"
 LEVEL = "other"
-CONTRACT_MODULES = ["contracts.specfuns", "contracts.lemmas_desc", "contracts.pyramid", "contracts.parallel", "contracts.walk",
-                    "contracts.errors"]
-FUNCTIONS = []
+CONTRACT_MODULES = ["contracts.specfuns", "contracts.lemmas_desc", "contracts.pyramid", "contracts.parallel", "contracts.walk"]
+FUNCTIONS = [
+    "toasty.par_util.ensure_workers_ok",
+    "toasty.par_util.put_checking_workers",
+    "toasty.par_util.join_workers",
+    "toasty.pyramid.Pyramid._walk_serial",
+    "toasty.pyramid.Pyramid._visit_leaves_serial",
+    "toasty.transform._do_a_transform",
+    "toasty.pyramid._mp_walk_worker",
+    "toasty.pyramid._mp_visit_worker",
+    "toasty.transform._transform_mp_worker",
+    "toasty.pyramid.Pyramid._walk_parallel",
+    "toasty.pyramid.Pyramid._visit_leaves_parallel",
+    "toasty.transform._transform_parallel",
+]
 LEMMAS = []
 SLOW = ()
-TRUSTED_BASE = ["pyvc VC generator; z3/cvc5", "Process.join returns after the target returned or raised; exitcode != 0 iff it raised"]
-ASSUMPTIONS = []
-EXPLANATION = "exceptional postconditions of the serial and parallel stages"
+TRUSTED_BASE = ["pyvc VC generator; z3/cvc5",
+                "Process.join returns after the target returned or raised; exitcode is None while running and != 0 iff the target raised",
+                "a user callback may raise at any call (modelled as a nondeterministic exception)"]
+ASSUMPTIONS = ["'never waits forever' is a liveness property: what is proved is that every blocking point (full queue, "
+               "timed-out receive, final join) is followed by an exit-code check that raises; the bounded tier runs real failing callbacks under a watchdog",
+               "multi_tan / multi_wcs stages: bounded tier only"]
+EXPLANATION = ("serial stages: no handler encloses the callback, the exception escapes; workers: a raising callback ends the worker "
+               "with an exception; parents: exit codes are inspected after join, on a full queue and on every dispatcher time-out")
